@@ -167,6 +167,20 @@ func htStores1(fn *ssa.Function, at *ssa.BasicBlock, depth int) []htStore {
 				}
 			}
 		}
+		// clear(ht.table): the builtin zeroes every bucket of the slice
+		if call, ok := in.(*ssa.Call); ok {
+			if bi, ok := call.Call.Value.(*ssa.Builtin); ok && bi.Name() == "clear" && len(call.Call.Args) == 1 {
+				if sl, ok := call.Call.Args[0].Type().Underlying().(*types.Slice); ok {
+					if q := qualType(sl.Elem()); htTypes[q] {
+						blk := call.Block()
+						if at != nil {
+							blk = at
+						}
+						out = append(out, htStore{nil, "whole " + q[strings.LastIndex(q, ".")+1:], blk})
+					}
+				}
+			}
+		}
 		st, ok := in.(*ssa.Store)
 		if !ok {
 			return
